@@ -238,10 +238,40 @@ def run(ctx) -> Result:
     w = proj.func(MOD, "PairwiseBasedAlgorithm.pairwise_cost_matrix")
     res.saw(w)
     _check_wrapper(res, proj, w, f)
+    _check_fresh_matrices(res, proj)
     res.not_decided.append("that the entries selected by a complete candidate add up to its Kemeny score (composition "
                            "with C01's counting core, which is numeric)")
     res.assumptions.append("numba nopython mode preserves the Python semantics of the kernel")
     return res
+
+
+def _check_fresh_matrices(res: Result, proj):
+    """T5: the position / bucket-id matrices handed to the kernel are those of the dataset's *current* rankings - also
+    after the dataset was mutated (evaluated on real Dataset instances; a matrix cached on first use would go stale)."""
+    from .datamodel import World
+    res.rule("T5", "position / bucket-id matrices agree with the current rankings after mutations of the dataset", 2)
+    w = World(proj)
+    raws = [[{1}, {2, 3}], [], [{3}, {1}], [{4}], [{2}, {4, 1}]]
+    for first in ("get_positions", "get_bucket_ids"):
+        d = w.dataset(raws)
+        probs = []
+        w.safe(first, w.call, d, first)
+        w.safe("get_positions", w.call, d, "get_positions")
+        w.safe("get_bucket_ids", w.call, d, "get_bucket_ids")
+        for op, args in (("remove_empty_rankings", []), ("remove_elements", [{w.element(4)}]),
+                         ("remove_elements_rate_presence_lower_than", [0.6])):
+            st, _ = w.safe(op, w.call, d, op, *args)
+            if st != "ok":
+                probs.append(f"{op} raised {_}")
+                break
+            ps = [p_ for p_ in w.dataset_problems(d, f"after {op}") if "get_positions" in p_ or "get_bucket_ids" in p_]
+            if ps:
+                probs.append(ps[0])
+                break
+        g = proj.method(w.D, first)
+        res.check(not probs, "T5", f"Dataset.{first}:fresh-after-mutation", g.loc(),
+                  ok_detail="recomputed from the current rankings after each mutator",
+                  bad_detail=f"start {raws}: " + "; ".join(probs[:1]))
 
 
 def _is_view_of(node, tainted) -> bool:
